@@ -1,5 +1,7 @@
 #![allow(dead_code)]
+mod c10;
 mod c11;
+mod consumer;
 mod c13;
 mod coq;
 mod extract;
@@ -32,6 +34,7 @@ fn main() {
             extract::run(&repo, &out);
         }
         "c13" => c13::run(&out, &tier, seed, shards),
+        "c10" => c10::run(&out, &tier, seed, shards, replay),
         "c11" => c11::run(&out, &tier, seed, shards, replay),
         other => {
             eprintln!("unknown command {}", other);
